@@ -124,6 +124,7 @@ func zzC02Matrix(kr, ka int) {
 		zzvAssert("argument-unchanged", ZZSameExact(o, oSnap))
 	}
 	zzvAssert("argument-inv", ZZInv(o))
+	zzvAssert("receiver-and-argument-share-no-memory", zzvDisjoint(s, o))
 	tot := 0.0
 	for _, w := range gs.w {
 		tot += w
